@@ -30,7 +30,17 @@ fn gen_doc(rng: &mut Rng) -> Value {
     words.push("pad");
   }
   let mut d = serde_json::Map::new();
-  d.insert("body".into(), json!(words.join(" ")));
+  // one document in sixteen has no body at all, one an empty one: field length 0 is a length too
+  // (score upper bounds are computed from the shortest document of a segment)
+  match rng.below(16) {
+    0 => {}
+    1 => {
+      d.insert("body".into(), json!(""));
+    }
+    _ => {
+      d.insert("body".into(), json!(words.join(" ")));
+    }
+  }
   d.insert("tag".into(), json!(*rng.pick(&qx::TAGS[..])));
   if !rng.chance(1, 6) {
     d.insert("n".into(), json!(rng.below(20)));
@@ -45,7 +55,7 @@ fn term(rng: &mut Rng, boost: bool) -> Value {
   // weighted towards frequent words so that posting lists are long
   let w = VOCAB[(rng.below(8).min(rng.below(8))) as usize];
   if boost && rng.chance(1, 2) {
-    json!({"type":"term","field":"body","value":w,"boost": *rng.pick(&[0.5, 2.0, 3.0, 7.5][..])})
+    json!({"type":"term","field":"body","value":w,"boost": *rng.pick(&[0.5, 2.0, 3.0, 7.5, 0.0][..])})
   } else {
     json!({"type":"term","field":"body","value":w})
   }
@@ -157,7 +167,7 @@ fn main() {
     for _ in 0..(if small { 0 } else { nseg }) {
       let ndocs = if thorough && rng.chance(1, 4) { 1000 + rng.below(1000) } else { 100 + rng.below(500) } as usize;
       let docs: Vec<Value> = (0..ndocs).map(|_| gen_doc(&mut rng)).collect();
-      longest = longest.max(docs.iter().filter(|d| d["body"].as_str().unwrap().contains("alpha")).count());
+      longest = longest.max(docs.iter().filter(|d| d["body"].as_str().unwrap_or("").contains("alpha")).count());
       w.commit_batch(&docs);
     }
     if rng.chance(1, 4) {
